@@ -68,6 +68,20 @@ func andWithConst(info *types.Info, e ast.Expr) (int64, bool) {
 	return 0, false
 }
 
+// isPlainAlias: e is an identifier or a type conversion of one (no arithmetic).
+func isPlainAlias(info *types.Info, e ast.Expr) bool {
+	e = ast.Unparen(e)
+	if _, ok := e.(*ast.Ident); ok {
+		return true
+	}
+	if call, ok := e.(*ast.CallExpr); ok && len(call.Args) == 1 {
+		if tv, ok := info.Types[call.Fun]; ok && tv.IsType() {
+			return isPlainAlias(info, call.Args[0])
+		}
+	}
+	return false
+}
+
 func extractModeFunc(p *Program, name string) (*modeTable, string) {
 	fd, info := p.FuncDecl(pkgSftp, "", name)
 	if fd == nil {
@@ -87,6 +101,7 @@ func extractModeFunc(p *Program, name string) (*modeTable, string) {
 		}
 		return constOfAny(info, as.Rhs[0])
 	}
+	maskSeen := false
 	for i, st := range fd.Body.List {
 		switch x := st.(type) {
 		case *ast.DeclStmt, *ast.AssignStmt:
@@ -102,13 +117,18 @@ func extractModeFunc(p *Program, name string) (*modeTable, string) {
 					}
 				}
 			}
-			if rhs != nil && i == 0 {
+			if rhs != nil && !maskSeen {
 				if m, ok := andWithConst(info, rhs); ok {
 					t.mask = m
+					maskSeen = true
+				} else if isPlainAlias(info, rhs) {
+					// `m := T(mode)`: another name for the argument, not the masked initial value
 				} else {
 					t.problems = append(t.problems, "initial value is not `mode & MASK`")
+					maskSeen = true
 				}
 			}
+			_ = i
 		case *ast.SwitchStmt:
 			m, ok := andWithConst(info, x.Tag)
 			if !ok {
